@@ -80,6 +80,16 @@ def check_workspace(ctx, files, tag):
     inp = {"files": files}
     try:
         srv.initialize()
+        # a prelude that must leave no trace: a document is opened with an unsaved line on top, the server evaluates, and
+        # the document is closed without saving; every answer below is about the files on disk again
+        others = sorted(n for n in files if n != "main.oal")
+        if others:
+            n0 = others[len(files) % len(others)]
+            u0 = "file://%s/%s" % (root, n0)
+            srv.open(u0, "// unsaved line 😉\n" + files[n0])
+            srv.pos_request("textDocument/prepareRename", "file://%s/main.oal" % root, 0, 0)
+            srv.drain(0.03)
+            srv.close_doc(u0)
         # the folder-level handlers model (coq/Model/Folder.v: f_rename) against the edits of the server
         from . import handlers_tie
         if not handlers_tie.run(ctx, srv, b, texts, inp, kinds=(2, 3), per_module=(60 if ctx.thorough else 30)):
